@@ -510,13 +510,15 @@ def pixels(level="1.5", n=5, p=3, rpc=2, protocol="file", seed=0):
                 pass
 
 
-def rpc_pair(level="1.5", rpc1=1, rpc2=7, n=5, p=3):
-    """same product, two records_per_chunk: identical trees; preferred chunk size = min(rpc, lines)"""
+def rpc_pair(level="1.5", rpc1=1, rpc2=7, n=5, p=3, cached=False):
+    """same product, two records_per_chunk: identical trees; preferred chunk size = min(rpc, lines); cached=True: served from an index"""
     import ceos_alos2
 
     def run(root, datas):
-        a = ceos_alos2.open_alos2(root, backend_options={"use_cache": False, "records_per_chunk": rpc1})
-        b = ceos_alos2.open_alos2(root, backend_options={"use_cache": False, "records_per_chunk": rpc2})
+        if cached:
+            ceos_alos2.open_alos2(root, backend_options={"use_cache": False, "create_cache": True, "records_per_chunk": 4})
+        a = ceos_alos2.open_alos2(root, backend_options={"use_cache": cached, "records_per_chunk": rpc1})
+        b = ceos_alos2.open_alos2(root, backend_options={"use_cache": cached, "records_per_chunk": rpc2})
         diffs = tree_diff(a, b)
         for t, rpc in ((a, rpc1), (b, rpc2)):
             for pol in ("HH", "HV"):
@@ -731,3 +733,26 @@ def framing(n_att=3, n_ch=2, with_mp=True, fac_len=(100, 120, 140, 160), att_len
         if d[f"facility_related_data_{i + 1}"]["preamble"]["record_length"] != L:
             bad.append(f"facility {i + 1} length")
     return {"reproduced": bool(bad), "detail": bad[:4], "params": (n_att, n_ch, with_mp, fac_len, att_len)}
+
+
+def stale_cache(level="1.5"):
+    """an index written for an image that is then replaced under the same name: use_cache=False must read the new file"""
+    import ceos_alos2
+    from vlib import synth
+
+    def run(root, datas):
+        ceos_alos2.open_alos2(root, backend_options={"use_cache": False, "create_cache": True, "records_per_chunk": 2})
+        name, old = next(iter(datas.items()))
+        rng = np.random.default_rng(7)
+        new = (rng.integers(0, 65536, size=(old.shape[0] + 2, old.shape[1])).astype("uint16") if level != "1.1"
+               else (rng.normal(size=(old.shape[0] + 2, old.shape[1])) + 1j * rng.normal(size=(old.shape[0] + 2, old.shape[1]))).astype("complex64"))
+        open(os.path.join(root, name), "wb").write(synth.image_file(level, new))
+        tree = ceos_alos2.open_alos2(root, backend_options={"use_cache": False, "records_per_chunk": 3})
+        pol = name.split("-")[1]
+        var = tree[f"imagery/{pol}/data"]
+        bad = []
+        if tuple(var.shape) != new.shape or not np.array_equal(_bits(var.values), _bits(new)):
+            bad.append(f"use_cache=False returned shape {tuple(var.shape)} for a replaced image of shape {new.shape} (stale index consulted?)")
+        return {"reproduced": bool(bad), "detail": bad}
+
+    return with_product(run, level=level, n=4, p=3, pols=("HH",))
